@@ -49,6 +49,12 @@ RECIPES = [
      "                    a[kdof] = la.lu_solve(self.invm, F - B + K, check_finite=False)", "equilibrium acceleration: stiffness sign (coupled arm)"),
     ("C01", "break", ["C01-R6"], "pyyeti/ode/_base_ode_class.py", "                    bo[i, i] = 0.0  # off diagonal damping", "                    pass", "bo keeps its diagonal"),
     ("C01", "neutral", [], "pyyeti/ode/_base_ode_class.py", "                    bo[i, i] = 0.0  # off diagonal damping", "                    np.fill_diagonal(bo, 0.0)", "other zeroing idiom"),
+    ("C01", "break", ["C01-R7"], "pyyeti/ode/_base_ode_class.py", "                rb[self.nonrf[_rb]] = True", "                rb[_rb] = True", "auto-detected rb modes: non-rf positions used as full-set positions"),
+    ("C01", "break", ["C01-R7"], "pyyeti/ode/_base_ode_class.py", "            _rb = np.nonzero(vec[self.nonrf])[0]", "            _rb = np.nonzero(vec)[0]", "given rb modes: full-set positions published as non-rf positions"),
+    ("C01", "break", ["C01-R7"], "pyyeti/ode/_base_ode_class.py", "        el[self.nonrf[_el]] = True", "        el[_el] = True", "elastic set built from non-rf positions"),
+    ("C01", "break", ["C01-R7"], "pyyeti/ode/_base_ode_class.py", "                krf = k[self.rf]\n                k = k[self.nonrf]", "                krf = k[self.nonrf]\n                k = k[self.nonrf]", "rf stiffness taken from the non-rf rows"),
+    ("C01", "break", ["C01-R7"], "pyyeti/ode/_utilities.py", "        ibm = 1 / beta if m is None else 1 / (beta * m[pvvelo])", "        ibm = 1 / beta if m is None else 1 / (beta * m[pvdisp])", "mass of another mode in the damped rigid-body coefficients"),
+    ("C01", "neutral", [], "pyyeti/ode/_base_ode_class.py", "        el[self.nonrf[_el]] = True", "        el_full = self.nonrf[_el]\n        el[el_full] = True", "temporary for the composed index"),
     # ---- C02
     ("C02", "break", ["C02-R1"], "pyyeti/ode/solveunc.py", "                    - self.m[_el][:, None] @ fw2\n", "                    + self.m[_el][:, None] @ fw2\n", "mass term sign"),
     ("C02", "break", ["C02-R2"], "pyyeti/ode/solveunc.py", "            a[el] = d[el] * -(freqw2)", "            a[el] = d[el] * (freqw2)", "a = -W^2 d sign"),
@@ -66,6 +72,8 @@ RECIPES = [
     ("C02", "neutral", [], "pyyeti/ode/_utilities.py", "    for i in range(rpsd):\n        # solve for unit frequency response function for i'th force:\n",
      "    for i in range(rpsd):\n        if not forcepsd[i].any():\n            continue\n        # solve for unit frequency response function for i'th force:\n", "forces with a vanishing PSD are skipped"),
     ("C02", "break", ["C02-R8"], "pyyeti/ode/freqdirect.py", "                d[kdof, i] = la.solve(Hi, force[:, i])", "                d[kdof, i] = la.solve(Hi, force[:, i], assume_a=('sym' if (self.k == self.k.T).all() else 'gen'))", "symmetric driver justified by k only"),
+    ("C02", "break", ["C02-R9"], "pyyeti/ode/solveunc.py", "        if 2 * pc.ur_inv_v.shape[1] > pc.ur_d.shape[1]:", "        if pc.lam.shape[0] == self.ksize:", "_addconj recognises the half set by one particular size"),
+    ("C02", "neutral", [], "pyyeti/ode/solveunc.py", "        if 2 * pc.ur_inv_v.shape[1] > pc.ur_d.shape[1]:", "        if pc.ur_d.shape[1] != 2 * pc.ur_inv_v.shape[1]:", "negated equality"),
     # ---- C03
     ("C03", "break", ["C03-R1"], "pyyeti/srs.py", "        beta2 = (E2 + Sz - C) / f", "        beta2 = (E2 - Sz - C) / f", "relvelo beta2"),
     ("C03", "break", ["C03-R1"], "pyyeti/srs.py", "        beta1 = 2 * (Sb - C)\n        beta2 = E2 - Sb", "        beta1 = 2 * (Sb + C)\n        beta2 = E2 - Sb", "absacce beta1"),
@@ -92,6 +100,7 @@ RECIPES = [
     ("C04", "break", ["C04-R8"], "pyyeti/nastran/op4.py", "            sortu = np.lexsort((ru, cu))", "            sortu = np.lexsort((cu, ru))", "upper triangle sorted in the lower triangle's order"),
     ("C04", "break", ["C04-R8"], "pyyeti/nastran/op4.py", "                and np.all(rl[sortl] == cu[sortu])", "                and np.all(rl[sortl] == ru[sortu])", "rows compared with rows"),
     ("C04", "neutral", [], "pyyeti/nastran/op4.py", "            sortl = np.lexsort((cl, rl))\n            sortu = np.lexsort((ru, cu))", "            order_low = np.lexsort((cl, rl))\n            order_upp = np.lexsort((ru, cu))\n            sortl, sortu = order_low, order_upp", "renamed sort vectors"),
+    ("C04", "break", ["C04-R9"], "pyyeti/nastran/op4.py", "            V.append(Y[j] + 1j * Y[j + 1])", "            V.append(np.asarray(Y[j : j + 2]).view(complex)[0])", "native complex view of file-order bytes"),
     # ---- C05
     ("C05", "break", ["C05-R1", "C05-R3"], "pyyeti/rainflow/py_rain.py", "            if X < Y:\n                break\n            if j == 2:\n                # /* step 5 from [1]: */\n                # /* [count Y as half cycle] */\n                n += 1\n                rf[n, 0] = Y / 2\n                rf[n, 1] = (pts[0] + pts[1]) / 2\n                rf[n, 2] = 0.5\n                pts[0]",
      "            if X <= Y:\n                break\n            if j == 2:\n                # /* step 5 from [1]: */\n                # /* [count Y as half cycle] */\n                n += 1\n                rf[n, 0] = Y / 2\n                rf[n, 1] = (pts[0] + pts[1]) / 2\n                rf[n, 2] = 0.5\n                pts[0]", "tie handling in _rainflow1"),
